@@ -26,6 +26,7 @@ def make(bootstrap):
 
     @spec_class(**kw)
     class D:  # one attribute per way of declaring a default
+        nd0: List[int]  # no default, declared FIRST (an unset attribute must not stop reset() from restoring the others)
         lit: List[int] = [1]  # mutable literal
         ad: List[int] = Attr(default=[2])  # Attr(default=)
         af: List[int] = Attr(default_factory=lambda: [3])  # Attr(default_factory=)
@@ -43,17 +44,18 @@ def make(bootstrap):
         lit = [100]
         af = [300]
         ad = [200]
+        nd = [400]  # the spec class declares NO default for nd
 
     return {"D": D, "SD": SD, "PD": PD, "In": In}
 
 
 FAM = {"eager": make(True), "lazy": make(False)}
 FRESH = {
-    "D": lambda: {"lit": [1], "ad": [2], "af": [3], "df": {"k": 4}, "st": {5}, "nd": ND},
-    "SD": lambda: {"lit": [10], "ad": [2], "af": [30], "df": {"k": 4}, "st": {5}, "nd": ND},
-    "PD": lambda: {"lit": [100], "ad": [200], "af": [300], "df": {"k": 4}, "st": {5}, "nd": ND},
+    "D": lambda: {"nd0": ND, "lit": [1], "ad": [2], "af": [3], "df": {"k": 4}, "st": {5}, "nd": ND},
+    "SD": lambda: {"nd0": ND, "lit": [10], "ad": [2], "af": [30], "df": {"k": 4}, "st": {5}, "nd": ND},
+    "PD": lambda: {"nd0": ND, "lit": [100], "ad": [200], "af": [300], "df": {"k": 4}, "st": {5}, "nd": [400]},
 }
-ATTRS = ["lit", "ad", "af", "df", "st", "nd"]
+ATTRS = ["nd0", "lit", "ad", "af", "df", "st", "nd"]
 
 
 def class_defaults(cls):
@@ -115,7 +117,7 @@ def make_h(fam, cname, nops, fop=None):
             assume(op1 == fop)
         for op, ai in [(op1, a1), (op2, a2), (op3, a3)][:nops]:
             assume(0 <= op <= 6)
-            a = pick(ATTRS, ai)
+            a = pick(ATTRS[1:], ai)  # nd0 stays unset throughout
             name = ["construct", "mutate", "reset_attr", "reset", "del", "reset_attr_copy", "mutate_inner"][op]
             tag = f"{tag0}/{name}"
             pre_live = [content(x) for x in live]
@@ -147,7 +149,7 @@ def make_h(fam, cname, nops, fop=None):
             except (Violation, Skip):
                 raise
             except AttributeError as ex:
-                if a == "nd" and op in (2,):
+                if a == "nd" and op in (2,) and cname != "PD":
                     continue  # resetting an attribute that has neither value nor default: not claimed
                 check(False, "operation must not raise", f"{tag}/unexpected-AttributeError", lambda: repr(ex))
             # (a) class-level defaults, constructor argument, every other live instance unchanged
@@ -160,7 +162,7 @@ def make_h(fam, cname, nops, fop=None):
             # (b) reset / del yield a fresh value equal to what a newly constructed instance holds
             if op in (2, 3, 4, 5):
                 fresh = FRESH[cname]()
-                for n in ATTRS if op == 3 else [a]:
+                for n in ATTRS[1:] if op == 3 else [a]:
                     got = getattr(target, n, ND)
                     want = fresh[n]
                     if want is ND:
